@@ -259,6 +259,18 @@ def run(ctx: core.Ctx):
                 good = abs(ds.tau.values[i, j] - o["tau"]) < 1e-6 and abs(ds.pvalue.values[i, j] - o["p"]) < 1e-6 and abs(ds.slope.values[i, j] - o["slope"]) < 1e-5
             if not good:
                 ctx.fail("mktrend", dict(x=x.tolist()), dict(tau=float(ds.tau.values[i, j])), "oracle values")
+    # accessor with the falsy-but-valid marker 0: an all-zero pixel under attrs nodata = 0 is an all-nodata pixel (flag -2), not a constant series
+    cube0 = np.array([[[rng.randint(1, 50) for _ in range(3)] for _ in range(2)] for _ in range(nt)], dtype="int16")
+    cube0[:, 0, 0] = 0
+    d0 = xr.DataArray(cube0, dims=("time", "y", "x"), coords={"time": t}, attrs={"nodata": 0}).hdc.algo.mktrend()
+    ctx.case(("accessor-nodata0", cube0.tobytes()), sample=dict(accessor="mktrend", nodata_attribute=0))
+    ctx.count("accessor with nodata attribute 0")
+    if int(d0.trend.values[0, 0]) != -2:
+        ctx.fail("mktrend", dict(x="12 x 0", nodata_attribute=0), dict(trend=int(d0.trend.values[0, 0]), tau=float(d0.tau.values[0, 0])), dict(trend=-2),
+                 note="a pixel whose cells all equal the nodata attribute (here 0) is flagged -2")
+    o01 = oracle(cube0[:, 0, 1].tolist())
+    if abs(d0.tau.values[0, 1] - o01["tau"]) > 1e-6 or abs(d0.pvalue.values[0, 1] - o01["p"]) > 1e-6:
+        ctx.fail("mktrend", dict(x=cube0[:, 0, 1].tolist(), nodata_attribute=0), dict(tau=float(d0.tau.values[0, 1])), "oracle values")
     # accessor: the series is the pixel's values in the order in which they are laid out along `time`; a cube whose time axis is stored
     # in descending order is the reversed series (tau, slope and flag change sign), and the stored order is what the result refers to
     rev = da.isel(time=slice(None, None, -1))
